@@ -30,8 +30,8 @@ def describe(specs, c):
     return "spec=%r env=%s argv=%s" % (specs[c["si"]]["str"], c["env"], c["argv"])
 
 
-def replay_obj(specs, c, r, why):
-    return {"engine": "refenum", "spec": specs[c["si"]]["str"], "ast": specs[c["si"]]["ast"], "prog": g.STD_PROG, "env": c["env"],
+def replay_obj(specs, c, r, why, prog=None):
+    return {"engine": "refenum", "spec": specs[c["si"]]["str"], "ast": specs[c["si"]]["ast"], "prog": prog or g.STD_PROG, "env": c["env"],
             "argv": c["argv"], "reference_accepts": sorted([sorted([k, list(v)] for k, v in m) for m in c["acc"]]),
             "observed": {k: r.get(k) for k in ("ran", "err", "panic", "log", "hang", "crash", "sbu") if k in r}, "why": why}
 
